@@ -17,6 +17,7 @@ import (
 	"bytes"
 	"encoding/json"
 	"fmt"
+	"reflect"
 	"regexp"
 	"sort"
 	"strconv"
@@ -79,6 +80,14 @@ func c04Judge(what string) func(args, real, drv json.RawMessage) *core.Verdict {
 		cls := core.Class(real)
 		if cls == "fatal" || cls == "hang" {
 			return core.Disagree(what + ": real code died / hangs")
+		}
+		var sh struct {
+			Shared string `json:"shared"`
+		}
+		if json.Unmarshal(real, &sh) == nil && sh.Shared != "" {
+			first := strings.SplitN(sh.Shared, " = ", 2)[0]
+			return core.Fail("aliasing:"+c04KeyOfPath(first), "the merged model is not a tree: "+sh.Shared+
+				" are one and the same Go value, so a later file that changes one of them changes the other, which it never mentions")
 		}
 		if d.Ok != nil {
 			if d.Hazard {
@@ -178,8 +187,57 @@ func realMergeSeq(raw json.RawMessage) any {
 				return map[string]any{"err": c04ErrClass(err)}
 			}
 		}
+		if sh := c04Shared(acc); sh != "" {
+			return map[string]any{"ok": core.EncodeVal(acc), "shared": sh}
+		}
 	}
 	return map[string]any{"ok": core.EncodeVal(acc)}
+}
+
+// c04Shared checks that a merged model is a TREE: no two positions hold the same Go map (or the same non-empty slice).
+// The Lean model has value semantics, so an aliasing slip in a merger (one default mapping stored under several keys,
+// a pool appended twice, …) is invisible to it until a later in-place merge changes both positions at once; this
+// observation catches every such slip at the merge that introduces it.  Returns "" or "posA = posB".
+func c04Shared(v any) string {
+	seen := map[uintptr]string{}
+	var walk func(v any, path string) string
+	walk = func(v any, path string) string {
+		switch x := v.(type) {
+		case map[string]any:
+			if x != nil {
+				p := reflect.ValueOf(x).Pointer()
+				if q, dup := seen[p]; dup {
+					return q + " = " + path
+				}
+				seen[p] = path
+			}
+			ks := make([]string, 0, len(x))
+			for k := range x {
+				ks = append(ks, k)
+			}
+			sort.Strings(ks)
+			for _, k := range ks {
+				if r := walk(x[k], path+"."+k); r != "" {
+					return r
+				}
+			}
+		case []any:
+			if len(x) > 0 {
+				p := reflect.ValueOf(x).Pointer()
+				if q, dup := seen[p]; dup {
+					return q + " = " + path
+				}
+				seen[p] = path
+			}
+			for i, e := range x {
+				if r := walk(e, path+"."+strconv.Itoa(i)); r != "" {
+					return r
+				}
+			}
+		}
+		return ""
+	}
+	return walk(v, "")
 }
 
 // ---- YAML documents with !reset / !override tags
@@ -380,6 +438,9 @@ func realDocs(raw json.RawMessage) any {
 		acc, err = override.EnforceUnicity(acc)
 		if err != nil {
 			return map[string]any{"err": c04ErrClass(err)}
+		}
+		if sh := c04Shared(acc); sh != "" {
+			return map[string]any{"ok": core.EncodeVal(acc), "shared": sh}
 		}
 	}
 	return map[string]any{"ok": core.EncodeVal(acc)}
